@@ -613,7 +613,7 @@ Lemma get_job_In s j x : get_job s j = Some x -> In x (jobs s).
 Proof. intros H. destruct (get_job_nth _ _ _ H) as [_ Hn]. eapply nth_error_In; eauto. Qed.
 
 (* every job-level move is monotone in the sense of PoolJobs *)
-Lemma jmove_jmono okdt okack s x y : jmove okdt okack s x y -> jmono x y.
+Lemma jmove_jmono okack s x y : jmove okack s x y -> jmono x y.
 Proof.
   intros H. destruct H.
   - apply apply_ack_mono.
@@ -652,11 +652,11 @@ Proof.
   split; [exact C|]. exists t, lim. repeat split; auto. lia.
 Qed.
 
-Lemma TLj_jmove okdt okack s x y :
-  TLj (now s) (t_hard s) x -> jmove okdt okack s x y -> TLj (now s) (t_hard s) y.
+Lemma TLj_jmove okack s x y :
+  TLj (now s) (t_hard s) x -> jmove okack s x y -> TLj (now s) (t_hard s) y.
 Proof.
   intros H Hm Hky.
-  assert (Hk : kind x = KApply) by (rewrite <- (jm_kind _ _ (jmove_jmono _ _ _ _ _ Hm)); exact Hky).
+  assert (Hk : kind x = KApply) by (rewrite <- (jm_kind _ _ (jmove_jmono _ _ _ _ Hm)); exact Hky).
   destruct (H Hk) as [A B]. clear Hky. destruct Hm.
   - (* acknowledged *) split; [reflexivity|]. cbn. intros l Hv. destruct (B l Hv) as [C _]. congruence.
   - congruence.
@@ -699,7 +699,7 @@ Proof.
   - rewrite Hn, Ht. eapply Forall_Forall2; [exact Hj|exact H|]. intros x y Hx Hr.
     destruct Hr as [_|c Hc Hr|p code _ _ _ _ _].
     + exact Hx.
-    + eapply (TLj_jmove (fun dt => 0 <= dt) (fun _ _ _ => True)); [exact Hx|].
+    + eapply (TLj_jmove (fun _ _ _ => True)); [exact Hx|].
       apply JSet; [exact Hc|intros; discriminate].
     + exact Hx.
 Qed.
@@ -742,9 +742,10 @@ Definition h05_tr : list event :=
 
 Example timed_out_was_due_witness :
   advances_nonneg h05_tr
-  /\ exists x, get_job (run h05_cfg h05_tr) 0 = Some x /\ kind x = KApply
-               /\ value x = Some (PTimeLimit (Some 5)) /\ time_accepted x = Some 1000
-               /\ now (run h05_cfg h05_tr) = 1005.
-Proof.
-  split; [repeat constructor|]. eexists. vm_compute. repeat split.
-Qed.
+  /\ match get_job (run h05_cfg h05_tr) 0 with
+     | Some x => kind x = KApply /\ value x = Some (PTimeLimit (Some 5))
+                 /\ time_accepted x = Some 1000 /\ eff_hard (run h05_cfg h05_tr) x = Some 5
+                 /\ now (run h05_cfg h05_tr) = 1005
+     | None => False
+     end.
+Proof. split; [repeat constructor; cbn; lia|]. vm_compute. repeat split. Qed.
